@@ -2,6 +2,7 @@ package nodes
 
 import (
 	"fmt"
+	"sort"
 	"strconv"
 	"strings"
 
@@ -225,6 +226,13 @@ func (sn Struct[T, G]) Dependencies() []NodeDependency {
 			})
 		}
 	}
+
+	// The fields are collected through maps, whose iteration order changes
+	// from call to call. depVersions is compared positionally against this
+	// list, so it has to come back in one stable order.
+	sort.Slice(output, func(i, j int) bool {
+		return output[i].Name() < output[j].Name()
+	})
 	return output
 }
 
